@@ -21,6 +21,8 @@ def sh(cmd, cwd=None, env=None, timeout=3600):
 def one(sid):
     d = os.path.join('/verif/seeded', sid)
     meta = json.load(open(os.path.join(d, 'meta.json')))
+    if str(meta.get('status', '')).startswith('neutralised'):
+        return sid, {'neutralised': meta['status']}
     props = meta.get('checked_with') or [meta.get('breaks') or sid[:3]]
     wt = '/tmp/mx/%s' % sid
     sh('git -C /repo worktree remove --force %s' % wt)
@@ -61,7 +63,7 @@ def main():
             print(sid, 'detected_by=%s' % det, {p: (r.get('exit'), r.get('kind')) for p, r in res.items() if isinstance(r, dict)} if 'error' not in res else res, flush=True)
             json.dump(matrix, open(out_path, 'w'), indent=1, sort_keys=True)
     sh('git -C /repo worktree prune')
-    missed = [s for s, r in matrix.items() if not any(isinstance(x, dict) and x.get('exit') == 1 for x in r.values())]
+    missed = [s for s, r in matrix.items() if 'neutralised' not in r and not any(isinstance(x, dict) and x.get('exit') == 1 for x in r.values())]
     print('TOTAL %d changes, %d detected, missed: %s' % (len(matrix), len(matrix) - len(missed), missed))
 
 
